@@ -131,7 +131,7 @@ chk("C19",
 
 chk("C06",
     "The driver is a nondeterministic generator: it chooses an abstract document (block skeletons of <= 4 nodes; inline sequences from a 31-atom menu in 8 composition contexts; all escaped texts of <= 3 characters over letter/space/32 punctuation characters; code-block contents from a menu of fence-like lines; container chains to depth 5-6; trees of nested tight/loose lists; escaped link titles and destinations; numeric character references at their digit limits; raw tags, comments, processing instructions, declarations and CDATA sections over three raw-HTML alphabets, judged against a transcription of the grammar of spec 6.6) and then every spelling the serializer is allowed (bullet and delimiter characters, marker padding 1-4, tab where a tab stop makes it equal, fence character/length, ATX closing sequence, setext underline length, quote marker variants (also differing from line to line), title quoting, destination form, hard-break spelling, escaping style, LF/CRLF) within a deviation bound; the real Parse+RenderHTML output must equal the document's denotation through ref.Norm. A guard that re-reads every line with the reference recognisers rejects (and counts) documents it cannot prove unambiguous.",
-    "Bounded scope (node/atom/deviation bounds in the evidence). The abstract model, denotation and serializer are the trusted base (Appendix A of DESIGN.md), self-tested against spec examples their canonical spellings coincide with. Laziness and most tab spellings are not generated.",
+    "Bounded scope (node/atom/deviation bounds in the evidence). The abstract model, denotation and serializer are the trusted base (Appendix A of DESIGN.md), self-tested against spec examples their canonical spellings coincide with. Lazy continuation lines are generated for paragraphs (one lazy line per container as a spelling deviation); block indentation of 1-3 columns and most tab spellings are not generated.",
     "stateless model checking of a closed generator-serializer-parser-renderer system: exhaustive enumeration of abstract documents x deviation-bounded serializer spellings; reference denotation as oracle",
     "DESIGN.md section 6, C06; Appendix A")
 chk("C09",
